@@ -56,6 +56,8 @@ CONSTANTS Conns,       \* connection ids
           AllowRst,    \* target may reset the connection
           AllowTClose, \* target may close completely after its half-close (further writes to it vanish, then fail)
           AllowCRst,   \* client may reset the connection during the relay
+          Planned,     \* TRUE (behaviour generation): each peer decides at the start how much it will send before it
+                       \* half-closes, so that random walks do not end nearly every stream at its first step
           Timeout,     \* handshake read timeout (ticks)
           MaxNow,      \* clock bound (0: time never advances)
           DrainMode,   \* "inner": tcp.go:307 as written (drain through the decrypting reader); "raw": drain the raw conn
@@ -90,8 +92,8 @@ W(tok) == IF tok.k = "pre" THEN tok.v ELSE 1       \* wire weight of a client to
 RECURSIVE SumW(_)
 SumW(s) == IF s = <<>> THEN 0 ELSE W(Head(s)) + SumW(Tail(s))
 
-InitConn(h, k) ==
-  [ hs |-> h, tk |-> k,
+InitConn(h, k, wc, wt) ==
+  [ hs |-> h, tk |-> k, wc |-> wc, wt |-> wt,   \* wc, wt: planned number of client tokens / target chunks (-1: free)
     pc |-> "idle", pa |-> "none",
     got |-> 0, buf50 |-> FALSE, left |-> <<>>, dl |-> 0, status |-> "", addrOK |-> FALSE,
     cerr |-> "", terr |-> FALSE,
@@ -115,7 +117,9 @@ InitOb ==
     afterClose |-> 0,         \* data chunks the client sent after the target had closed completely
     wire |-> [cs |-> 0, tr |-> 0, ts |-> 0, cr |-> 0, cpl |-> 0] ]   \* cpl: client payload (plaintext) sent
 
-Init == /\ st \in [Conns -> {InitConn(h, k) : h \in HsKinds, k \in TgtKinds}]
+WantC == IF Planned THEN 0..MaxTok ELSE {-1}
+WantT == IF Planned THEN 0..MaxT ELSE {-1}
+Init == /\ st \in [Conns -> {InitConn(h, k, wc, wt) : h \in HsKinds, k \in TgtKinds, wc \in WantC, wt \in WantT}]
         /\ ob = [c \in Conns |-> InitOb]
         /\ now = 0 /\ lst = "open" /\ srv = "accept"
         /\ tr = <<>>
@@ -162,6 +166,7 @@ ClientSend(c, tok) ==
   /\ st[c].pc \notin {"idle", "reset"} /\ ~st[c].cfin /\ ~st[c].crst
   /\ EnvOK(c)
   /\ Len(ob[c].csent) < MaxTok /\ tok \in NextToks(c)
+  /\ st[c].wc = -1 \/ Len(ob[c].csent) < st[c].wc
   /\ LET o == ob[c] IN
      \* a client may still write after the proxy has closed its side: those bytes go nowhere
      Step(c, IF st[c].csock = "open" THEN [st[c] EXCEPT !.cq = Append(@, tok)] ELSE st[c],
@@ -177,15 +182,18 @@ ClientSend(c, tok) ==
 ClientFin(c) ==
   /\ st[c].pc \notin {"idle", "reset"} /\ ~st[c].cfin /\ ~st[c].crst
   /\ EnvOK(c)
+  /\ st[c].wc = -1 \/ Len(ob[c].csent) >= st[c].wc \/ Len(ob[c].csent) >= MaxTok \/ NextToks(c) = {}
   /\ Step(c, [st[c] EXCEPT !.cfin = TRUE], [ob[c] EXCEPT !.cfinAt = now], "CFin", 0)
 
 TargetSend(c) ==
   /\ st[c].tgt = "up" /\ ~st[c].tfin /\ ~st[c].trst /\ ob[c].tsent < MaxT
+  /\ st[c].wt = -1 \/ ob[c].tsent < st[c].wt
   /\ Step(c, [st[c] EXCEPT !.tq = Append(@, ob[c].tsent + 1)],
           [ob[c] EXCEPT !.tsent = @ + 1, !.wire.ts = @ + 1], "TSend", ob[c].tsent + 1)
 
 TargetFin(c) ==
   /\ st[c].tgt = "up" /\ ~st[c].tfin /\ ~st[c].trst
+  /\ st[c].wt = -1 \/ ob[c].tsent >= st[c].wt \/ ob[c].tsent >= MaxT
   /\ Step(c, [st[c] EXCEPT !.tfin = TRUE], [ob[c] EXCEPT !.tfinPolite = Has(ob[c].tlog, 0)], "TFin", 0)
 
 TargetRst(c) ==
